@@ -747,6 +747,81 @@ fn main() {
           }
         }
       }
+      "sub_history" => {
+        // sub_history <op>...: public API, PUB bound on tcp, SUB connected; ops  s:<hex topic>  u:<hex topic>  m:<hex message>
+        // s / u set the SUBSCRIBE / UNSUBSCRIBE option; m publishes the message and reports whether the SUB socket gets it
+        let ops: Vec<String> = it.map(|x| x.to_string()).collect();
+        let rt = tokio::runtime::Builder::new_multi_thread().worker_threads(2).enable_all().build().unwrap();
+        rt.block_on(async move {
+          let ctx = rzmq::Context::new().unwrap();
+          let publ = ctx.socket(rzmq::SocketType::Pub).unwrap();
+          let sub = ctx.socket(rzmq::SocketType::Sub).unwrap();
+          sub.set_option(rzmq::socket::options::RCVTIMEO, 400i32).await.unwrap();
+          publ.bind("tcp://127.0.0.1:0").await.unwrap();
+          let ep = String::from_utf8(publ.get_option(rzmq::socket::options::LAST_ENDPOINT).await.unwrap()).unwrap();
+          sub.connect(&ep).await.unwrap();
+          tokio::time::sleep(Duration::from_millis(300)).await;
+          let mut seq = 0u8;
+          for op in ops {
+            let (k, hx) = op.split_once(':').unwrap();
+            let bytes_ = unhex(hx);
+            match k {
+              "s" => {
+                sub.set_option_raw(rzmq::socket::options::SUBSCRIBE, &bytes_).await.unwrap();
+                tokio::time::sleep(Duration::from_millis(150)).await;
+              }
+              "u" => {
+                sub.set_option_raw(rzmq::socket::options::UNSUBSCRIBE, &bytes_).await.unwrap();
+                tokio::time::sleep(Duration::from_millis(150)).await;
+              }
+              _ => {
+                // a unique trailer lets us recognise this very message
+                seq += 1;
+                let mut m = bytes_.clone();
+                m.extend_from_slice(&[0xFE, 0xED, seq]);
+                publ.send(rzmq::Msg::from_vec(m.clone())).await.unwrap();
+                let mut got = false;
+                while let Ok(r) = sub.recv().await {
+                  if r.data().unwrap_or(&[]) == &m[..] {
+                    got = true;
+                    break;
+                  }
+                }
+                println!("match {}", got);
+              }
+            }
+          }
+        });
+        std::process::exit(0);
+      }
+      "dealer_burst" => {
+        // dealer_burst <n>: public API, ROUTER bound on tcp, DEALER connects and sends n messages at once (before the
+        // connection is established they go to the DEALER's pending queue); counts what the ROUTER receives
+        let n: usize = it.next().unwrap().parse().unwrap();
+        let rt = tokio::runtime::Builder::new_multi_thread().worker_threads(2).enable_all().build().unwrap();
+        let got = rt.block_on(async move {
+          let ctx = rzmq::Context::new().unwrap();
+          let router = ctx.socket(rzmq::SocketType::Router).unwrap();
+          let dealer = ctx.socket(rzmq::SocketType::Dealer).unwrap();
+          router.set_option(rzmq::socket::options::RCVTIMEO, 1500i32).await.unwrap();
+          router.bind("tcp://127.0.0.1:0").await.unwrap();
+          let ep = String::from_utf8(router.get_option(rzmq::socket::options::LAST_ENDPOINT).await.unwrap()).unwrap();
+          dealer.connect(&ep).await.unwrap();
+          for i in 0..n {
+            dealer.send(rzmq::Msg::from_vec(format!("m{}", i).into_bytes())).await.unwrap();
+          }
+          let mut got = Vec::new();
+          for _ in 0..n {
+            match router.recv_multipart().await {
+              Ok(frames) => got.push(String::from_utf8_lossy(frames.last().and_then(|m| m.data()).unwrap_or(&[])).into_owned()),
+              Err(_) => break,
+            }
+          }
+          got
+        });
+        println!("dealer_burst sent={} received={:?} {}", n, got, if got.len() == n { "all delivered" } else { "STUCK in the pending queue" });
+        std::process::exit(0);
+      }
       "batch_order" => {
         // batch_order <sndbatch_count> <sndbatch_bytes> <size>...: public API, PUSH -> PULL over tcp on a current-thread
         // runtime (a burst of sends that find room in the pipe is queued before the session assembles its first batch);
